@@ -225,9 +225,11 @@ def do_is_equal(ctx, rng, i):
         s2[k] = s2[k] * (1 + 0.01)
         H2 = MPOGraph.from_term_list(TermList(terms, s2), sites, bc='finite').build_MPO()
         r2 = sum(s * dense.term_matrix(sites, t) for s, t in zip(s2, terms))
-        expect = np.linalg.norm(r2 - ref) < 1e-12
-        if not expect and np.linalg.norm(r2 - ref) < 1e-6:
+        # documented criterion: |A-B|^2 < eps (|A|^2 + |B|^2) with eps = 1e-10 (Frobenius norms); near the threshold: not judged
+        rel = np.linalg.norm(r2 - ref)**2 / max(np.linalg.norm(r2)**2 + np.linalg.norm(ref)**2, 1e-300)
+        if 1e-12 < rel < 1e-8:
             raise _Skip()
+        expect = rel <= 1e-12
     else:
         import checks.C08 as C8
         a, b = 0, L - 1
@@ -239,7 +241,8 @@ def do_is_equal(ctx, rng, i):
         t2, s2 = terms + [extra], list(strengths) + [0.05]
         H2 = MPOGraph.from_term_list(TermList(t2, s2), sites, bc='finite').build_MPO()
         r2 = sum(s * dense.term_matrix(sites, t) for s, t in zip(s2, t2))
-        if np.linalg.norm(r2 - ref) < 1e-6:
+        rel = np.linalg.norm(r2 - ref)**2 / max(np.linalg.norm(r2)**2 + np.linalg.norm(ref)**2, 1e-300)
+        if rel < 1e-8:
             raise _Skip()
         expect = False
         case['extra_term'] = extra
